@@ -40,6 +40,11 @@
 EXTENDS Integers, Sequences, FiniteSets, TLC, Json
 
 CONSTANTS MaxIdx, MaxTerm, MaxReady, MaxCrash, MaxAppend,
+          MaxCuts,              \* how many Saves may end with a segment cut (wal.go cut(): the Save that finds the file past
+                                \* SegmentSizeBytes syncs, starts the file <seq+1>-<enti+1>.wal with the current hard state)
+          MaxDamage,            \* how many times the newest snapshot file may be found damaged at a restart
+          W_EntiAlways,         \* FALSE: as the code does (SaveSnapshot moves enti only forward). TRUE: weakened, to show
+                                \* that the properties depend on it
           InstallSaveFirst,     \* FALSE: as the code does (snapshot file, WAL snapshot record, THEN hard state). TRUE: the
                                 \* as-observed variant for B3 - a Ready loop seen to save the hard state of a snapshot-
                                 \* carrying Ready before the snapshot; its behaviours are replayed to obtain a real witness
@@ -54,31 +59,41 @@ VARIABLES
   pend,       \* steps of the Ready being processed, not yet executed
   hist,       \* what was done so far (for the replay)
   nready, ncrash,
+  segs,       \* segment files: <<[pos |-> number of records before the segment, name |-> index in its file name]>>
+  enti,       \* WAL.enti: index of the last entry saved (names the next segment)
+  ncut, ndmg,
   up,         \* TRUE while the process runs
   rec         \* last recovery result: [snap |-> [i, t], hs |-> [t, c], ents |-> <<[i, t], ...>>]
 
-vars == <<wal, unsynced, files, vol, pend, hist, nready, ncrash, up, rec>>
+vars == <<wal, unsynced, files, vol, pend, hist, nready, ncrash, segs, enti, ncut, ndmg, up, rec>>
 
-NoRec == [snap |-> [i |-> 0, t |-> 0], hs |-> [t |-> 0, c |-> 0], ents |-> <<>>]
+NoRec == [snap |-> [i |-> 0, t |-> 0], hs |-> [t |-> 0, c |-> 0], ents |-> <<>>, err |-> "none", enti |-> 0]
 
 Init == /\ wal = << [k |-> "snap", i |-> 0, t |-> 0] >>        \* wal.Create writes the empty snapshot record
         /\ unsynced = <<>> /\ files = {}
         /\ vol = [last |-> 0, term |-> 1, commit |-> 0, snap |-> 0, lt |-> <<>>]
         /\ pend = <<>> /\ hist = <<>> /\ nready = 0 /\ ncrash = 0 /\ up = TRUE /\ rec = NoRec
+        /\ segs = << [pos |-> 0, name |-> 0] >> /\ enti = 0 /\ ncut = 0 /\ ndmg = 0
 
 WalSnaps(w) == {[i |-> w[j].i, t |-> w[j].t] : j \in {x \in 1..Len(w) : w[x].k = "snap"}}
 TermAt(i) == IF i \in DOMAIN vol.lt THEN vol.lt[i] ELSE 0
 Idle == up /\ pend = <<>> /\ nready < MaxReady
 
+\* what becomes committed agrees with every snapshot this disk has heard of (snapshots are of committed state: a node whose
+\* directory holds a snapshot record (i, t) is never told that another entry is committed at i)
+KnownSnaps == files \cup WalSnaps(wal \o unsynced)
+AgreesWithSnaps(c, lt) == \A s \in KnownSnaps : (s.i <= c /\ s.i \in DOMAIN lt) => lt[s.i] = s.t
+
 \* ---- Ready structs (what the node decides to persist next) ----
 \* new entries at the current term, commit may advance; MustSync because of the entries
 AppendEnts(k, c) ==
   /\ Idle /\ vol.last + k <= MaxIdx /\ c \in vol.commit..(vol.last + k)
+  /\ AgreesWithSnaps(c, [j \in (DOMAIN vol.lt) \cup ((vol.last + 1)..(vol.last + k)) |-> IF j > vol.last THEN vol.term ELSE vol.lt[j]])
   /\ LET ents == [j \in 1..k |-> [i |-> vol.last + j, t |-> vol.term]] IN
-     /\ pend' = << [op |-> "save", t |-> vol.term, c |-> c, ents |-> ents, sync |-> TRUE] >>
+     /\ pend' = << [op |-> "save", t |-> vol.term, c |-> c, ents |-> ents, sync |-> TRUE, cut |-> FALSE] >>
      /\ vol' = [vol EXCEPT !.last = vol.last + k, !.commit = c,
                             !.lt = [j \in (DOMAIN vol.lt) \cup ((vol.last + 1)..(vol.last + k)) |-> IF j > vol.last THEN vol.term ELSE vol.lt[j]]]
-  /\ nready' = nready + 1 /\ UNCHANGED <<wal, unsynced, files, hist, ncrash, up, rec>>
+  /\ nready' = nready + 1 /\ UNCHANGED <<wal, unsynced, files, hist, ncrash, segs, enti, ncut, ndmg, up, rec>>
 
 \* raft.MustSync compares with the hard state of the previous Save (after a restart: the recovered one); Vote is constant here
 PrevT == LET w == wal \o unsynced
@@ -87,19 +102,19 @@ PrevT == LET w == wal \o unsynced
 
 \* only the commit index moves: the Save does not sync
 CommitOnly(c) ==
-  /\ Idle /\ c \in (vol.commit + 1)..vol.last
-  /\ pend' = << [op |-> "save", t |-> vol.term, c |-> c, ents |-> <<>>, sync |-> (vol.term # PrevT)] >>
+  /\ Idle /\ c \in (vol.commit + 1)..vol.last /\ AgreesWithSnaps(c, vol.lt)
+  /\ pend' = << [op |-> "save", t |-> vol.term, c |-> c, ents |-> <<>>, sync |-> (vol.term # PrevT), cut |-> FALSE] >>
   /\ vol' = [vol EXCEPT !.commit = c]
-  /\ nready' = nready + 1 /\ UNCHANGED <<wal, unsynced, files, hist, ncrash, up, rec>>
+  /\ nready' = nready + 1 /\ UNCHANGED <<wal, unsynced, files, hist, ncrash, segs, enti, ncut, ndmg, up, rec>>
 
 \* a new term; the uncommitted tail from j on is replaced by one entry of the new term (j = last+1: nothing replaced)
 NewTerm(j) ==
   /\ Idle /\ vol.term < MaxTerm /\ j \in (vol.commit + 1)..(vol.last + 1) /\ j > vol.snap /\ j <= MaxIdx
   /\ LET nt == vol.term + 1 IN
-     /\ pend' = << [op |-> "save", t |-> nt, c |-> vol.commit, ents |-> << [i |-> j, t |-> nt] >>, sync |-> TRUE] >>
+     /\ pend' = << [op |-> "save", t |-> nt, c |-> vol.commit, ents |-> << [i |-> j, t |-> nt] >>, sync |-> TRUE, cut |-> FALSE] >>
      /\ vol' = [vol EXCEPT !.term = nt, !.last = j,
                             !.lt = [x \in {y \in DOMAIN vol.lt : y < j} \cup {j} |-> IF x = j THEN nt ELSE vol.lt[x]]]
-  /\ nready' = nready + 1 /\ UNCHANGED <<wal, unsynced, files, hist, ncrash, up, rec>>
+  /\ nready' = nready + 1 /\ UNCHANGED <<wal, unsynced, files, hist, ncrash, segs, enti, ncut, ndmg, up, rec>>
 
 \* maybeTriggerSnapshot: local snapshot at the applied (= committed) index
 LocalSnap ==
@@ -107,7 +122,7 @@ LocalSnap ==
   /\ LET i == vol.commit  t == TermAt(i) IN
      /\ pend' = << [op |-> "snapfile", i |-> i, t |-> t], [op |-> "walsnap", i |-> i, t |-> t] >>
      /\ vol' = [vol EXCEPT !.snap = i, !.lt = [x \in {y \in DOMAIN vol.lt : y >= i} |-> vol.lt[x]]]
-  /\ nready' = nready + 1 /\ UNCHANGED <<wal, unsynced, files, hist, ncrash, up, rec>>
+  /\ nready' = nready + 1 /\ UNCHANGED <<wal, unsynced, files, hist, ncrash, segs, enti, ncut, ndmg, up, rec>>
 
 \* a Ready that carries the leader's snapshot (this node was too far behind): file, WAL record, then the hard state
 \* whose commit is the snapshot index; the hard state record is synced only if the term changes with it
@@ -116,12 +131,12 @@ InstallSnap(i, t) ==
   \* snapshots are of committed state: what this node's disk already knows about committed indexes (snapshot files and
   \* WAL snapshot records, also those its recovery did not choose) is consistent with the new one
   /\ \A s \in files \cup WalSnaps(wal) : (s.i = i => s.t = t) /\ (s.i < i => s.t <= t) /\ (s.i > i => s.t >= t)
-  /\ LET sv == [op |-> "save", t |-> t, c |-> i, ents |-> <<>>, sync |-> (t # PrevT)]
+  /\ LET sv == [op |-> "save", t |-> t, c |-> i, ents |-> <<>>, sync |-> (t # PrevT), cut |-> FALSE]
          sf == [op |-> "snapfile", i |-> i, t |-> t]
          ws == [op |-> "walsnap", i |-> i, t |-> t]
      IN pend' = IF InstallSaveFirst THEN <<sv, sf, ws>> ELSE <<sf, ws, sv>>
   /\ vol' = [last |-> i, term |-> t, commit |-> i, snap |-> i, lt |-> (i :> t)]
-  /\ nready' = nready + 1 /\ UNCHANGED <<wal, unsynced, files, hist, ncrash, up, rec>>
+  /\ nready' = nready + 1 /\ UNCHANGED <<wal, unsynced, files, hist, ncrash, segs, enti, ncut, ndmg, up, rec>>
 
 \* ---- durable steps ----
 RecsOfSave(s) == [j \in 1..Len(s.ents) |-> [k |-> "ent", i |-> s.ents[j].i, t |-> s.ents[j].t]] \o << [k |-> "hs", t |-> s.t, c |-> s.c] >>
@@ -129,14 +144,25 @@ RecsOfSave(s) == [j \in 1..Len(s.ents) |-> [k |-> "ent", i |-> s.ents[j].i, t |-
 Step ==
   /\ up /\ pend # <<>>
   /\ LET s == Head(pend) IN
-     /\ CASE s.op = "save" ->
-               IF s.sync THEN wal' = wal \o unsynced \o RecsOfSave(s) /\ unsynced' = <<>> /\ files' = files
-               ELSE unsynced' = unsynced \o RecsOfSave(s) /\ wal' = wal /\ files' = files
-          [] s.op = "snapfile" -> files' = files \cup {[i |-> s.i, t |-> s.t]} /\ UNCHANGED <<wal, unsynced>>
-          [] s.op = "walsnap" -> wal' = wal \o unsynced \o << [k |-> "snap", i |-> s.i, t |-> s.t] >> /\ unsynced' = <<>> /\ files' = files
-     /\ hist' = Append(hist, s)
+     \E cut \in (IF s.op = "save" /\ ncut < MaxCuts THEN BOOLEAN ELSE {FALSE}) :
+       LET e1 == IF s.op = "save" /\ s.ents # <<>> THEN s.ents[Len(s.ents)].i                  \* saveEntry: w.enti = e.Index
+                 ELSE IF s.op = "walsnap" /\ (W_EntiAlways \/ enti < s.i) THEN s.i ELSE enti  \* SaveSnapshot
+           all == wal \o unsynced \o RecsOfSave(s)
+       IN
+       /\ enti' = e1
+       /\ CASE s.op = "save" /\ cut ->
+                 \* cut(): sync what was written, new file named <seq+1>-<enti+1>, its head repeats the hard state
+                 /\ wal' = all \o << [k |-> "hs", t |-> s.t, c |-> s.c] >> /\ unsynced' = <<>> /\ files' = files
+                 /\ segs' = Append(segs, [pos |-> Len(all), name |-> e1 + 1]) /\ ncut' = ncut + 1
+            [] s.op = "save" /\ ~cut ->
+                 /\ IF s.sync THEN wal' = all /\ unsynced' = <<>> ELSE unsynced' = unsynced \o RecsOfSave(s) /\ wal' = wal
+                 /\ files' = files /\ UNCHANGED <<segs, ncut>>
+            [] s.op = "snapfile" -> files' = files \cup {[i |-> s.i, t |-> s.t]} /\ UNCHANGED <<wal, unsynced, segs, ncut>>
+            [] s.op = "walsnap" -> /\ wal' = wal \o unsynced \o << [k |-> "snap", i |-> s.i, t |-> s.t] >> /\ unsynced' = <<>>
+                                  /\ files' = files /\ UNCHANGED <<segs, ncut>>
+       /\ hist' = Append(hist, IF s.op = "save" THEN [s EXCEPT !.cut = cut] ELSE s)
   /\ pend' = Tail(pend)
-  /\ UNCHANGED <<vol, nready, ncrash, up, rec>>
+  /\ UNCHANGED <<vol, nready, ncrash, ndmg, up, rec>>
 
 \* process crash: what was not synced survives as any prefix (the page writer may have flushed whole pages)
 Crash(n) ==
@@ -144,23 +170,58 @@ Crash(n) ==
   /\ wal' = wal \o SubSeq(unsynced, 1, n) /\ unsynced' = <<>>
   /\ up' = FALSE /\ pend' = <<>> /\ ncrash' = ncrash + 1
   /\ hist' = Append(hist, [op |-> "crash", kept |-> n])
-  /\ UNCHANGED <<files, vol, nready, rec>>
+  /\ UNCHANGED <<files, vol, nready, segs, enti, ncut, ndmg, rec>>
 
-\* ---- recovery: loadSnapshot + replayWAL ----
 LastHs(w) == LET H == {j \in 1..Len(w) : w[j].k = "hs"} IN
              IF H = {} THEN [t |-> 0, c |-> 0] ELSE LET m == CHOOSE j \in H : \A x \in H : x <= j IN [t |-> w[m].t, c |-> w[m].c]
 Valid(w) == {s \in WalSnaps(w) : s.i <= LastHs(w).c}                     \* wal.ValidSnapshotEntries
+
+\* the newest snapshot file is found damaged at the restart (the snapshotter sets it aside and takes the next one)
+NewestFile == CHOOSE f \in files : \A g \in files : g.i <= f.i
+Damage ==
+  /\ ~up /\ ndmg < MaxDamage /\ files # {}
+  \* an older snapshot file the WAL vouches for is left to fall back to (with none left the state is gone: no recovery
+  \* can be asked to produce it)
+  /\ \E g \in files \ {NewestFile} :
+        /\ g \in Valid(wal) /\ \A h \in (files \ {NewestFile}) \cap Valid(wal) : h.i <= g.i
+        \* ... and the WAL holds the entries between it and the commit index (a snapshot installed from the leader stands
+        \* for entries this node never had: with that file gone they are gone)
+        /\ \A i \in (g.i + 1)..LastHs(wal).c : \E j \in 1..Len(wal) : wal[j].k = "ent" /\ wal[j].i = i
+  /\ files' = files \ {NewestFile}
+  /\ hist' = Append(hist, [op |-> "damage", i |-> NewestFile.i, t |-> NewestFile.t])
+  /\ ndmg' = ndmg + 1
+  /\ UNCHANGED <<wal, unsynced, vol, pend, nready, ncrash, segs, enti, ncut, up, rec>>
+
+\* ---- recovery: loadSnapshot + replayWAL ----
 Chosen(w, F) == LET C == IF SnapshotMustBeInWal THEN {f \in F : f \in Valid(w)} ELSE F IN                   \* Snapshotter.LoadNewestAvailable
                 IF C = {} THEN [i |-> 0, t |-> 0] ELSE CHOOSE f \in C : \A g \in C : g.i <= f.i
-\* ReadAll from snapshot s: later records overwrite earlier ones at the same index and cut what follows
-RECURSIVE Replay(_, _, _, _)
-Replay(w, j, s, acc) ==
-  IF j > Len(w) THEN acc
-  ELSE IF w[j].k = "ent" /\ w[j].i > s.i
-       THEN LET keep == SelectSeq(acc, LAMBDA e : e.i < w[j].i) IN Replay(w, j + 1, s, Append(keep, [i |-> w[j].i, t |-> w[j].t]))
-       ELSE Replay(w, j + 1, s, acc)
+\* wal.Open(snap): the last file whose name index is <= snap.Index (searchIndex walks the names from the end)
+SegFor(sn) == CHOOSE k \in 1..Len(segs) : segs[k].name <= sn.i /\ \A j \in (k + 1)..Len(segs) : segs[j].name > sn.i
+\* ReadAll from there: an entry above the snapshot lands at its offset (cutting what follows; beyond the end is
+\* ErrSliceOutOfRange), a snapshot record at the starting index must carry the same term (ErrSnapshotMismatch);
+\* w.enti = index of the last entry record read, whatever its index
+RECURSIVE ReadAll(_, _, _, _)
+ReadAll(w, j, sn, a) ==
+  IF j > Len(w) \/ a.err # "none" THEN a
+  ELSE IF w[j].k = "ent" THEN
+         IF w[j].i > sn.i THEN
+            LET upx == w[j].i - sn.i - 1 IN
+            IF upx > Len(a.ents) THEN ReadAll(w, j + 1, sn, [a EXCEPT !.err = "slice-out-of-range"])
+            ELSE ReadAll(w, j + 1, sn, [a EXCEPT !.ents = Append(SubSeq(a.ents, 1, upx), [i |-> w[j].i, t |-> w[j].t]), !.enti = w[j].i])
+         ELSE ReadAll(w, j + 1, sn, [a EXCEPT !.enti = w[j].i])
+       ELSE IF w[j].k = "snap" /\ w[j].i = sn.i THEN
+         IF w[j].t # sn.t THEN ReadAll(w, j + 1, sn, [a EXCEPT !.err = "snapshot-mismatch"])
+         ELSE ReadAll(w, j + 1, sn, [a EXCEPT !.match = TRUE])
+       ELSE IF w[j].k = "hs" THEN ReadAll(w, j + 1, sn, [a EXCEPT !.hs = [t |-> w[j].t, c |-> w[j].c]])
+       ELSE ReadAll(w, j + 1, sn, a)
 
-Recovered(w, F) == LET s == Chosen(w, F) IN [snap |-> s, hs |-> LastHs(w), ents |-> Replay(w, 1, s, <<>>)]
+Recovered(w, F) ==
+  LET sn == Chosen(w, F)
+      a == ReadAll(w, segs[SegFor(sn)].pos + 1, sn, [ents |-> <<>>, hs |-> [t |-> 0, c |-> 0], match |-> FALSE, err |-> "none", enti |-> 0])
+  IN [snap |-> sn, hs |-> a.hs, ents |-> a.ents, enti |-> a.enti,
+      \* as built: in write mode ReadAll overwrites ErrSnapshotNotFound with the result of newFileEncoder (wal.go:544-562),
+      \* so a starting snapshot record that is not met is NOT an error for a restarting node (a.match is not consulted)
+      err |-> a.err]
 
 Recover ==
   /\ ~up
@@ -170,10 +231,11 @@ Recover ==
         /\ vol' = [last |-> last, term |-> IF r.hs.t = 0 THEN 1 ELSE r.hs.t, commit |-> r.hs.c, snap |-> r.snap.i,
                    lt |-> [x \in {r.ents[j].i : j \in 1..Len(r.ents)} \cup (IF r.snap.i > 0 THEN {r.snap.i} ELSE {}) |->
                             IF x = r.snap.i THEN r.snap.t ELSE (CHOOSE e \in {r.ents[j] : j \in 1..Len(r.ents)} : e.i = x).t]]
+        /\ enti' = r.enti
         /\ hist' = Append(hist, [op |-> "recover", expect |-> r])
         /\ PrintT("RSCEN " \o ToJson([steps |-> hist', expect |-> r]))
   /\ up' = TRUE
-  /\ UNCHANGED <<wal, unsynced, files, pend, nready, ncrash>>
+  /\ UNCHANGED <<wal, unsynced, files, pend, nready, ncrash, segs, ncut, ndmg>>
 
 Next == \/ \E k \in 1..MaxAppend : \E c \in 0..MaxIdx : AppendEnts(k, c)
         \/ \E c \in 1..MaxIdx : CommitOnly(c)
@@ -182,6 +244,7 @@ Next == \/ \E k \in 1..MaxAppend : \E c \in 0..MaxIdx : AppendEnts(k, c)
         \/ \E i \in 1..MaxIdx : \E t \in 1..MaxTerm : InstallSnap(i, t)
         \/ Step
         \/ \E n \in 0..3 : Crash(n)
+        \/ Damage
         \/ Recover
 
 Spec == Init /\ [][Next]_vars
@@ -195,7 +258,8 @@ Acceptable ==
   /\ r.snap.i <= r.hs.c \/ r.snap.i = 0
   /\ r.hs.c <= LastOf(r)
   /\ \A j \in 1..Len(r.ents) : r.ents[j].i = r.snap.i + j          \* contiguous from the snapshot
-  /\ r.snap \in WalSnaps(wal)                                       \* wal.Open finds its starting record
+  /\ r.snap \in WalSnaps(wal)                                       \* the WAL knows the snapshot
+  /\ r.err = "none"                                                 \* wal.Open + ReadAll succeed from the file chosen by name
 
 \* a synced entry record that no later record at or below its index supersedes, and that the chosen snapshot does not
 \* cover, is recovered with its term
